@@ -261,3 +261,99 @@ def register(ex):
     for arg, dflt in (("min_size", "(5, 1)"), ("max_size", "(15, 1)"), ("min_weight", "(1, 1)"), ("max_weight", "(10, 1)")):
         nm = "genMcp" + "".join(w.capitalize() for w in arg.split("_"))
         p(nm, F, dflt, f"mcp/generator.py:MCPGenerator.__init__ default `{arg}`", default_of(MC, "MCPGenerator", arg))
+
+    # ---- decision-critical tokens of the post-processing formulas and of the persistence protocol ------------------------
+    BASE = "rl4co/envs/common/base.py"
+    UT = "rl4co/envs/common/utils.py"
+    CVE = "rl4co/envs/routing/cvrp/env.py"
+
+    def has_stmt(rel, func, pred, pred_alt=None):
+        """'true' iff some node of `func` satisfies pred; 'false' only if a *recognised different* form (pred_alt) is present;
+        otherwise None = pattern-miss (a harmless rewrite is never an alarm: the correspondence then carries the tie)"""
+        def run():
+            tree = ex.parse(rel)
+            fn = ex.find_function(tree, func) if tree else None
+            if fn is None:
+                return None
+            nodes = list(ast.walk(fn))
+            if any(pred(n) for n in nodes):
+                return "true"
+            if pred_alt is not None and any(pred_alt(n) for n in nodes):
+                return "false"
+            return None
+        return run
+
+    def assign_of(target_txt, value_txt):
+        T_, V_ = target_txt.replace(" ", ""), value_txt.replace(" ", "")
+        return lambda n: isinstance(n, ast.Assign) and len(n.targets) == 1 and ex.norm(n.targets[0]) == T_ and ex.norm(n.value) == V_
+
+    def call_stmt(txt):
+        T_ = txt.replace(" ", "")
+        return lambda n: isinstance(n, ast.Expr) and ex.norm(n.value) == T_
+
+    def cvrptw_repair():
+        """the two integer offsets of the window repair: `min_tmp[mask] - 1` and `max_tmp[mask] + 1`"""
+        tree = ex.parse(TW)
+        fn = ex.find_function(tree, "CVRPTWGenerator._generate") if tree else None
+        if fn is None:
+            return None
+        lo = hi = None
+        for n in ast.walk(fn):
+            if isinstance(n, ast.BinOp) and isinstance(n.right, ast.Constant) and isinstance(n.right.value, int):
+                sign = 1 if isinstance(n.op, ast.Add) else -1 if isinstance(n.op, ast.Sub) else None
+                if sign is None:
+                    continue
+                if ex.norm(n.left) == "min_tmp[mask]":
+                    lo = sign * n.right.value
+                elif ex.norm(n.left) == "max_tmp[mask]":
+                    hi = sign * n.right.value
+        return f"({lo}, {hi})" if lo is not None and hi is not None else None
+
+    def fjsp_spread():
+        """`proc_time_means * (1 - 0.2)` and `proc_time_means * (1 + 0.2)`: the common spread as a fraction"""
+        tree = ex.parse(FJ)
+        fn = ex.find_function(tree, "FJSPGenerator._simulate_processing_times") if tree else None
+        if fn is None:
+            return None
+        vals = {}
+        for n in ast.walk(fn):
+            if isinstance(n, ast.BinOp) and isinstance(n.op, ast.Mult) and ex.norm(n.left) == "proc_time_means" and isinstance(n.right, ast.BinOp) \
+                    and isinstance(n.right.left, ast.Constant) and n.right.left.value == 1 and isinstance(n.right.right, ast.Constant):
+                kind = "sub" if isinstance(n.right.op, ast.Sub) else "add" if isinstance(n.right.op, ast.Add) else None
+                if kind:
+                    vals[kind] = frac(n.right.right)
+        if set(vals) == {"sub", "add"} and vals["sub"] == vals["add"] and vals["sub"] is not None:
+            return fstr(vals["sub"])
+        return None
+
+    p("genCvrptwRepair", "Int × Int", "(-1, 1)",
+      "cvrptw/generator.py:_generate step 7  `min_tmp[mask] - 1` / `max_tmp[mask] + 1`", cvrptw_repair)
+    p("genFjspSpread", F, "(1, 5)", "fjsp/generator.py:_simulate_processing_times  `proc_time_means * (1 ∓ 0.2)`", fjsp_spread)
+    p("genCenterIsMid", "Bool", "true", "common/utils.py:get_sampler  'center' → `Uniform(low=(high + low) / 2, high=(high + low) / 2)`",
+      has_stmt(UT, "get_sampler", lambda n: isinstance(n, ast.Return) and n.value is not None
+               and ex.norm(n.value) == "Uniform(low=(high+low)/2,high=(high+low)/2)",
+               lambda n: isinstance(n, ast.Return) and n.value is not None and ex.norm(n.value) == "Uniform(low=(high-low)/2,high=(high-low)/2)"))
+    p("genMcpCutoffSampled", "Bool", "true", "mcp/generator.py:_generate  `cutoffs_masks = torch.arange(max_size)…` (the sampled maximum)",
+      has_stmt(MC, "MCPGenerator._generate", lambda n: isinstance(n, ast.Assign) and len(n.targets) == 1 and ex.norm(n.targets[0]) == "cutoffs_masks"
+               and ex.norm(n.value).startswith("torch.arange(max_size).view(1,1,-1)<"),
+               lambda n: isinstance(n, ast.Assign) and len(n.targets) == 1 and ex.norm(n.targets[0]) == "cutoffs_masks"
+               and ex.norm(n.value).startswith("torch.arange(self.max_size).view(1,1,-1)<")))
+    p("genLoadDataPerRow", "Bool", "true", "cvrp/env.py:load_data  `td_load['demand'] / td_load['capacity'][:, None]` (each row's own capacity)",
+      has_stmt(CVE, "CVRPEnv.load_data", lambda n: isinstance(n, ast.BinOp) and isinstance(n.op, ast.Div)
+               and ex.norm(n.left) == "td_load['demand']" and ex.norm(n.right) == "td_load['capacity'][:,None]",
+               lambda n: isinstance(n, ast.BinOp) and isinstance(n.op, ast.Div) and ex.norm(n.left) == "td_load['demand']"
+               and ex.norm(n.right) in ("td_load['capacity'][0]", "td_load['capacity'][0,None]", "td_load['capacity'][:1]")))
+    p("genAtspLoopFull", "Bool", "true", "atsp/generator.py:_generate  `for i in range(self.num_loc)`",
+      has_stmt(AT, "ATSPGenerator._generate", lambda n: isinstance(n, ast.For) and ex.norm(n.iter) == "range(self.num_loc)",
+               lambda n: isinstance(n, ast.For) and ex.norm(n.iter).startswith("range(self.num_loc") and ex.norm(n.iter) != "range(self.num_loc)"))
+    p("genDataAtspLoopFull", "Bool", "true", "data/generate_data.py:generate_atsp_data  `for i in range(atsp_size)`",
+      has_stmt(GD, "generate_atsp_data", lambda n: isinstance(n, ast.For) and ex.norm(n.iter) == "range(atsp_size)",
+               lambda n: isinstance(n, ast.For) and ex.norm(n.iter).startswith("range(atsp_size") and ex.norm(n.iter) != "range(atsp_size)"))
+    p("genGetstateCopiesDict", "Bool", "true", "common/base.py:__getstate__  `state = self.__dict__.copy()` (every attribute is state)",
+      has_stmt(BASE, "RL4COEnvBase.__getstate__", assign_of("state", "self.__dict__.copy()")))
+    p("genGetstateRngToState", "Bool", "true", "common/base.py:__getstate__  `state['rng'] = state['rng'].get_state()`",
+      has_stmt(BASE, "RL4COEnvBase.__getstate__", assign_of("state['rng']", "state['rng'].get_state()")))
+    p("genSetstateUpdatesDict", "Bool", "true", "common/base.py:__setstate__  `self.__dict__.update(state)`",
+      has_stmt(BASE, "RL4COEnvBase.__setstate__", call_stmt("self.__dict__.update(state)")))
+    p("genSetstateRestoresRng", "Bool", "true", "common/base.py:__setstate__  `self.rng.set_state(state['rng'])`",
+      has_stmt(BASE, "RL4COEnvBase.__setstate__", call_stmt("self.rng.set_state(state['rng'])")))
